@@ -2,7 +2,7 @@
 From Coq Require Import ZArith List Bool String.
 From Coq Require Import Lia.
 From OG Require Import C15.Model C15.Proofs C15.Tables C15.Gen_Fields C15.Gen_MapRanges C15.Gen_Transient C15.Gen_Commands C15.Gen_Values.
-From OG Require Import C16.Model C16.ProofsRun C16.Order C15.Cmds C15.CmdsProofs.
+From OG Require Import C16.Model C16.ProofsRun C16.Order C16.Expand C15.Cmds C15.CmdsProofs C15.Uniform C15.UniformX.
 Import ListNotations.
 Open Scope string_scope.
 
@@ -136,6 +136,56 @@ Theorem C15_replicas_converge : forall shard_type range_create clip cleardef v c
   x_runO shard_type range_create clip cleardef v cfg os1 s l = x_runO shard_type range_create clip cleardef v cfg os2 s l.
 Proof. intros. apply convergence; assumption. Qed.
 Print Assumptions C15_replicas_converge.
+
+
+(* ---- uniform sharding, the premise of the order-independence theorems, is an INVARIANT ----
+   st: the sharding type of a measurement (independent of its deletion mark); range_create: the unmodelled RANGE branch of
+   CreateShardGroup (touches no measurement). C15.Uniform.env_ok is what the environment must guarantee: a measurement created
+   in a policy that holds no measurement of another name has the type of the measurements it succeeds - the one case
+   validMeasurementShardType does not examine (finding C15-recreated-measurement-sharding-map-order is its negation). *)
+Theorem C15_uniform_sharding_invariant_core : forall st range_create clip cleardef,
+  (forall x, st (mark_one x) = st x) ->
+  (forall c p t e, map rp_msts (pols (fst (range_create c p t e))) = map rp_msts (pols c)) ->
+  forall o c x, valid o -> uniform_sharding st c -> env_ok st c x ->
+  uniform_sharding st (fst (applyO st range_create clip cleardef o c x)).
+Proof. exact applyO_uniform. Qed.
+Print Assumptions C15_uniform_sharding_invariant_core.
+
+(* ... of every step of the hand model (48 command kinds), whatever oracles the step consults *)
+Theorem C15_uniform_sharding_invariant : forall st range_create clip cleardef v cfg,
+  (forall x, st (mark_one x) = st x) -> (forall x, st (ms_unmark x) = st x) ->
+  (forall c p t e, map rp_msts (pols (fst (range_create c p t e))) = map rp_msts (pols c)) ->
+  (forall c p', In p' (pols (cfg_expandf cfg c)) -> exists p, In p (pols c) /\ rp_msts p' = rp_msts p) ->
+  forall o pk s e, valid o -> uniform_sharding st (core (pp s)) -> entry_env st s e ->
+  uniform_sharding st (core (pp (fst (x_apply (stepO st range_create clip cleardef o) pk v cfg s e)))).
+Proof. exact x_apply_uniform. Qed.
+Print Assumptions C15_uniform_sharding_invariant.
+
+(* convergence with the premise discharged: uniform sharding of the INITIAL catalogue and the environment's guarantee along
+   the log suffice for two replicas under arbitrary valid oracles to end in the same state with the same results *)
+Theorem C15_replicas_converge_from_start : forall st range_create clip cleardef v cfg,
+  (forall x, st (mark_one x) = st x) -> (forall x, st (ms_unmark x) = st x) ->
+  (forall c p t e, map rp_msts (pols (fst (range_create c p t e))) = map rp_msts (pols c)) ->
+  (forall c p', In p' (pols (cfg_expandf cfg c)) -> exists p, In p (pols c) /\ rp_msts p' = rp_msts p) ->
+  forall l os1 os2 s, v_dsubfix v = true ->
+  List.length os1 = List.length l -> List.length os2 = List.length l ->
+  Forall (fun o => valid (fst o)) os1 -> Forall (fun o => valid (fst o)) os2 ->
+  uniform_sharding st (core (pp s)) -> env_along st range_create clip cleardef v cfg os1 s l ->
+  x_runO st range_create clip cleardef v cfg os1 s l = x_runO st range_create clip cleardef v cfg os2 s l.
+Proof.
+  intros st rc clip cd v cfg H1 H2 H3 H4 l os1 os2 s Hv L1 L2 V1 V2 HU HE.
+  apply convergence; try assumption. apply uniform_along_from_start; assumption.
+Qed.
+Print Assumptions C15_replicas_converge_from_start.
+
+(* the hypothesis about ExpandGroups holds for the model of it that the correspondence runs (C16.Expand.expand_groups) *)
+Theorem C15_expand_groups_keeps_measurements : forall c p', In p' (pols (expand_groups c)) -> exists p, In p (pols c) /\ rp_msts p' = rp_msts p.
+Proof. exact expand_groups_keeps. Qed.
+Print Assumptions C15_expand_groups_keeps_measurements.
+
+(* non-vacuity: with HASH-only catalogues (st constant) every hypothesis above holds, the environment's guarantee included *)
+Example C15_uniform_example : forall c x, env_ok (fun _ => 0) c x.
+Proof. intros c x. destruct x; cbn; auto. Qed.
 
 (* today's DropSubscription (first policy REACHED in map order): the choice is immaterial unless two or more policies of
    the database carry a subscription of that name - exactly the signature of finding C15-dropsubscription-map-order *)
